@@ -6,6 +6,10 @@ props = [json.loads(l) for l in open(os.path.join(VERIF, 'properties.jsonl'))]
 ids = [p['id'] for p in props]
 
 CHECKS = {
+ 'C17': dict(engine='E1 enum', category='exploration', design_ref='3 C17',
+   technique='exhaustive attack kind x injection position x protocol x transport with inotify / socket canaries, parser-option monitor and child-process resource bounds',
+   text='External general entities over file/http/ftp, external parameter entities, internal entities, XInclude, processing instructions and comments injected at every leaf text and every attribute of a valid request, and three external-DTD doctypes, for XmlDocument, Soap11 and Soap12 with default arguments through ServerBase and WSGI. Armed monitors (self-tested against a deliberately unsafe parser at the start of every shard): inotify open/access watches on the canary files, a listening canary socket, canary content in captured arguments / response, and the keyword arguments of every XMLParser constructed. Entity-chain bombs for a (fan-out, depth) grid in element text and in attribute values, quadratic blow-up, deep nesting and huge attribute counts run one per child process under 10 s / 256 MiB bounds and must end in a Client fault or be accepted unexpanded.',
+   note='libxml2 here has no HTTP/FTP client: network contact can only show through the socket canary and the parser options. An internal entity inside an attribute value is substituted by libxml2 regardless of options; only external/parameter entity text counts as disclosure.'),
  'C07': dict(engine='E1 enum', category='exploration', design_ref='3 C07',
    technique='exhaustive feature lattice of applications: QName closure and cross-reference checks, rebuild under enumerated hash seeds in fresh processes, zeep driven from the WSDL alone',
    text='The full product of services {1,2,3} x custom operation names x custom message names x in/out headers {0,1,2} x declared faults {none, one, shared} x port types x namespaces {1,2,3; 3 adds a hub type importing four more namespaces} x body style {wrapped, bare, out_bare} x SOAP 1.1/1.2 (1152 applications quick, 3888 thorough). For each: the WSDL parses; every type/base/itemType/ref/element/message/binding QName resolves; each method is exactly one portType operation with one binding operation, existing messages and the declared faults; two builds in one process and builds in fresh interpreters under ten PYTHONHASHSEED values are byte-identical; zeep built from the WSDL bytes alone calls every method (arguments, headers, declared fault) and must see equal values. The level-A programs add every alphabet value through zeep.',
